@@ -6,7 +6,9 @@ package mysql
 // C18, MySQL side: an in-process fake MySQL server (protocol 4.1 handshake v10, COM_QUERY,
 // COM_PING, COM_STMT_PREPARE/EXECUTE/CLOSE, text result sets) on a unix socket in a private
 // temp dir. The real go-sql-driver + database/sql + sqlx + adapter code run against it.
-// What the server answers is decided by the shared scripted engine (c18Core).
+// What the server answers is decided by the shared scripted engine (c18Core); failed statements are
+// answered with the ERR packet of c18WireErr (1213/40001 for a deadlock victim, whose transaction the
+// engine has then ended: the status flags of later answers no longer carry "in transaction").
 
 import (
 	"bufio"
@@ -246,10 +248,6 @@ func (s *c18Srv) serve(c net.Conn) {
 		switch rep.Res {
 		case "drop":
 			return false
-		case "err":
-			c18Wpkt(c, &seq, c18Err(1105, "HY000", "injected failure"))
-		case "dup":
-			c18Wpkt(c, &seq, c18Err(1062, "23000", "Duplicate entry 'x' for key 'PRIMARY'"))
 		case "rows":
 			c18Wpkt(c, &seq, c18Lenenc(uint64(len(rep.Cols))))
 			for _, col := range rep.Cols {
@@ -264,8 +262,13 @@ func (s *c18Srv) serve(c net.Conn) {
 				c18Wpkt(c, &seq, p)
 			}
 			c18Wpkt(c, &seq, c18EOF(rep.Tx))
-		default:
+		case "ok":
 			c18Wpkt(c, &seq, c18OK(rep.Aff, rep.Tx))
+		default:
+			// a failed statement: the error number and SQLSTATE a MySQL server sends for this kind of
+			// failure (1105 generic, 1062 duplicate key, 1213 deadlock, 1205 lock wait timeout, ...)
+			ei := c18WireErr(false, rep.Res)
+			c18Wpkt(c, &seq, c18Err(uint16(ei.Code), ei.State, ei.Msg))
 		}
 		return true
 	}
